@@ -395,6 +395,11 @@ G5_CASES = [
     ("slice-write-ahead", 's := []int{1, 2, 3, 4}; acc := 0; for i, v := range s { if i+1 < len(s) { s[i+1] = v * 2 }; acc = acc*10 + v }; ti("acc=", acc)'),
     ("slice-reslice", 's := []int{1, 2, 3, 4}; n := 0; for i := range s { s = s[:1]; n += i }; ti("n=", n); ti("len=", len(s))'),
     ("array-copy", 'a := [3]int{1, 2, 3}; acc := 0; for i, v := range a { a[2] = 100; acc = acc*10 + v + i }; ti("acc=", acc); ti("a2=", a[2])'),
+    ("array-copy-struct-elems", 'type e struct{ f, g int }; a := [3]e{{1, 1}, {2, 2}, {3, 3}}; acc := 0; for i, v := range a { a[2].f = 100; a[(i+1)%3].g += 10; acc = acc*100 + v.f + v.g }; ti("acc=", acc); ti("a=", a[2].f+a[0].g)'),
+    ("array-copy-nested", 'm := [3][2]int{{1, 2}, {3, 4}, {5, 6}}; acc := 0; for i, v := range m { m[2][1] = 60; m[(i+1)%3][0] += 7; acc = acc*100 + v[0] + v[1] }; ti("acc=", acc); ti("m=", m[2][1]+m[0][0])'),
+    ("array-copy-reverse", 'a := [4]int{1, 2, 3, 4}; for i, v := range a { a[3-i] = v }; ti("a=", a[0]*1000+a[1]*100+a[2]*10+a[3])'),
+    ("array-copy-of-field", 'type h struct{ arr [3]int }; s := h{[3]int{1, 2, 3}}; p := &s; acc := 0; for i, v := range p.arr { p.arr[2] = 50; s.arr[1] += 5; acc = acc*100 + v + i }; ti("acc=", acc)'),
+    ("array-copy-global", 'arr3 = [3]int{4, 5, 6}; acc := 0; for _, v := range arr3 { arr3[2] = 9; acc = acc*10 + v }; arr3 = [3]int{4, 5, 6}; ti("acc=", acc)'),
     ("array-ptr-live", 'a := [3]int{1, 2, 3}; acc := 0; for i, v := range &a { a[2] = 7; acc = acc*10 + v + i }; ti("acc=", acc)'),
     ("array-index-only-no-copy", 'a := [3]int{1, 2, 3}; acc := 0; for i := range a { a[2] = 9; acc = acc*10 + a[i] }; ti("acc=", acc)'),
     ("string-reassign", 's := "h\\xffé世"; acc := 0; for i, r := range s { s = "zz"; acc += i*7 + int(r) }; ti("acc=", acc); t(s)'),
